@@ -340,7 +340,7 @@ VMLoop:
 			if bp == 0 {
 				bp = vm.curFrame.fn.NumLocals + 1
 			}
-			if numRet == 1 {
+			if numRet == 1 && !vm.curFrame.discardResult {
 				vm.stack[bp-1] = vm.stack[vm.sp-1]
 			} else {
 				vm.stack[bp-1] = Undefined
@@ -764,6 +764,7 @@ func (vm *VM) initCurrentFrame() {
 
 	vm.curFrame.errHandlers = nil
 	vm.curFrame.basePointer = 0
+	vm.curFrame.discardResult = false
 }
 
 func (vm *VM) clearCurrentFrame() {
@@ -1131,8 +1132,13 @@ func (vm *VM) xOpCallCompiled(cfunc *CompiledFunction, numArgs, flags int) error
 	if cfunc == vm.curFrame.fn { // recursion
 		nextOp := vm.curInsts[vm.ip+2+1]
 
-		if nextOp == OpReturn ||
-			(nextOp == OpPop && OpReturn == vm.curInsts[vm.ip+2+2]) {
+		discard := nextOp == OpPop && OpReturn == vm.curInsts[vm.ip+2+2]
+		if nextOp == OpReturn || discard {
+			if discard {
+				// the value of the call is popped and undefined is returned,
+				// the activation reusing this frame must not return its value.
+				vm.curFrame.discardResult = true
+			}
 			curBp := vm.curFrame.basePointer
 			copy(vm.stack[curBp:curBp+numLocals], vm.stack[basePointer:])
 			newSp := vm.sp - numArgs - 1
@@ -1157,6 +1163,7 @@ func (vm *VM) xOpCallCompiled(cfunc *CompiledFunction, numArgs, flags int) error
 	frame.freeVars = cfunc.Free
 	frame.errHandlers = nil
 	frame.basePointer = basePointer
+	frame.discardResult = false
 
 	vm.curFrame.ip = vm.ip + 2
 	vm.curInsts = cfunc.Instructions
@@ -1518,6 +1525,9 @@ type frame struct {
 	ip          int
 	basePointer int
 	errHandlers *errHandlers
+	// discardResult is set when a self call whose value is discarded reuses
+	// this frame as a tail call: the frame returns undefined then.
+	discardResult bool
 }
 
 func getFrameSourcePos(frame *frame) parser.Pos {
